@@ -29,6 +29,13 @@ def oracle(op, impl, model):
     t = op.split()
     if impl.startswith("panic"):
         return ("panic/" + t[0], "implementation panicked", "no panic")
+    if t[0] == "fullpaths":
+        # the model's patterns are what the theorems of Props/C16.lean (fullpaths section) speak about: every base path on its own
+        if impl != model:
+            decl = lambda xs: [bytes.fromhex(x).decode() if x != "-" else "" for x in xs]
+            return ("fullpaths/patterns", "a route %r under the service base paths %r (API base %r) is mounted under %r, expected %r" % (
+                decl(t[2:3])[0], decl(t[3:]), decl(t[1:2])[0], decl(impl.split()[1:]), decl(model.split()[1:])), model)
+        return None
     if t[0] in ("esc", "unesc", "setpath"):
         return None  # library functions: judged by the correspondence with the model only
     routes, method, raw, exp = parse(op)
